@@ -609,16 +609,50 @@ _FEATURE_BITS = {"s_feature_compat": [0x4, 0x8, 0x10, 0x20, 0x200, 0x400, 0x1000
 
 
 def sb_geom_op(rng, img_path):
-    """-> (patches, descr) on the primary superblock of img_path"""
-    name, off, size = rng.choice(SB_GEOM)
+    """-> (patches, descr) on the primary superblock of img_path.  40% of the time a
+    *consistent pair* is changed (blocks/clusters per group; inodes per group and inode
+    count; block and cluster size), because the library cross-checks those fields."""
     sb = bytearray(rd(img_path, 1024, 1024))
-    v = int.from_bytes(sb[off:off + size], "little")
-    if name in _FEATURE_BITS:
-        nv, op = v ^ rng.choice(_FEATURE_BITS[name]), "flipfeature"
+
+    def get(off, size=4):
+        return int.from_bytes(sb[off:off + size], "little")
+    patches = []
+
+    def put(off, size, val):
+        sb[off:off + size] = val.to_bytes(size, "little")
+        patches.append((1024 + off, val.to_bytes(size, "little")))
+    if rng.random() < 0.4:
+        which = rng.choice(["per_group", "inodes", "blocksize"])
+        if which == "per_group":
+            v = get(32)
+            nv, op = mut(rng, v, 4, SB_GEOM_SPECIALS["s_blocks_per_group"], 0.7)
+            put(32, 4, nv)
+            put(36, 4, nv)
+            name = "s_blocks_per_group=s_clusters_per_group"
+        elif which == "inodes":
+            v = get(40)
+            nv, op = mut(rng, v, 4, SB_GEOM_SPECIALS["s_inodes_per_group"], 0.7)
+            bpg = get(32) or 1
+            blocks = get(4) | (get(336) << 32 if get(96) & 0x80 else 0)
+            groups = (blocks - get(20) + bpg - 1) // bpg
+            put(40, 4, nv)
+            put(0, 4, (groups * nv) & 0xFFFFFFFF)
+            name = "s_inodes_per_group+s_inodes_count"
+        else:
+            v = get(24)
+            nv, op = mut(rng, v, 4, SB_GEOM_SPECIALS["s_log_block_size"], 0.7)
+            put(24, 4, nv)
+            put(28, 4, nv)
+            name = "s_log_block_size=s_log_cluster_size"
+        op = "pair-" + op
     else:
-        nv, op = mut(rng, v, size, SB_GEOM_SPECIALS.get(name, ()), 0.6)
-    sb[off:off + size] = nv.to_bytes(size, "little")
-    patches = [(1024 + off, nv.to_bytes(size, "little"))]
+        name, off, size = rng.choice(SB_GEOM)
+        v = get(off, size)
+        if name in _FEATURE_BITS:
+            nv, op = v ^ rng.choice(_FEATURE_BITS[name]), "flipfeature"
+        else:
+            nv, op = mut(rng, v, size, SB_GEOM_SPECIALS.get(name, ()), 0.6)
+        put(off, size, nv)
     ro = struct.unpack_from("<I", sb, 100)[0]
     if ro & 0x400 and rng.random() < 0.85:
         patches.append((1024 + 1020, struct.pack("<I", PC.crc32c(0xFFFFFFFF, bytes(sb[:1020])))))
